@@ -35,6 +35,7 @@ structure St where
   es : Nat := 0                      -- element size in bytes (0 = variable length)
   chain : String := ""               -- textual description of the codec chain
   store : String := ""               -- store kind of the case (`store=` of the cfg line)
+  path : List Char := ['/']          -- node path of the array (`path=` of the cfg line; used by the C20 handler)
 
 def parseCfg (l : Line) : Option (ArrCfg Elem) := do
   let shape ← l.nl "shape"
@@ -121,7 +122,8 @@ def handleCore (st : St) (l : Line) : Option (St × List String) := do
     if l.outcome.startsWith "err-open" then pure ({ cfg := none, st := [] }, ["any"]) else
     let cfg ← parseCfg l
     pure ({ cfg := some cfg, st := [], abs := fun _ => cfg.fill,
-            es := ((l.get "es").bind (·.toNat?)).getD 0, chain := (l.get "chain").getD "", store := (l.get "store").getD "" }, ["ok"])
+            es := ((l.get "es").bind (·.toNat?)).getD 0, chain := (l.get "chain").getD "", store := (l.get "store").getD "",
+            path := ((l.get "path").getD "/").toList }, ["ok"])
   else
     match st.cfg with
     | none => pure (st, ["skip"])
